@@ -34,6 +34,13 @@ instance : Transc Float where
 instance : NatCast Float := ⟨Float.ofNat⟩
 instance : IntCast Float := ⟨Float.ofInt⟩
 
+/-- C's conversion `(int) x` of a double: truncation toward zero. -/
+class Trunc (α : Type) where
+  trunc : α → Int
+
+instance : Trunc Float := ⟨fun x => x.toInt64.toInt⟩
+instance : Trunc Rat := ⟨fun x => if x ≥ 0 then x.floor else x.ceil⟩
+
 /-- Cython's `max(a, b)` on C doubles: `(b > a) ? b : a`. -/
 @[inline] def cmax {α : Type} [LT α] [DecidableLT α] (a b : α) : α :=
   if b > a then b else a
